@@ -376,3 +376,123 @@ def fixed_orders(strategy):
 
 def id_strategies(ev, extra_worlds=0):
     return [(r, k, d) for (r, k) in strategies_for(ev, extra_worlds) for d in (0, 1)]
+
+
+@contextlib.contextmanager
+def fixed_orders_idc(strategy):
+    """as fixed_orders, plus: the keys that get_new_outcomes_and_conditions adds from the set
+    `set(new_event) - set(outcomes) - set(conditions)` are inserted in sorted order (reversed when drev)"""
+    if strategy is None:
+        yield
+        return
+    import importlib
+
+    idc = importlib.import_module("y0.algorithm.identify.idc_star")
+    rev, rot, drev = strategy
+    orig = idc.get_new_outcomes_and_conditions
+
+    def patched(new_event, outcomes, conditions):
+        ro, rc = orig(new_event, outcomes, conditions)
+
+        def reorder(d, base):
+            first = [k for k in d if k in base]
+            rest = sorted([k for k in d if k not in base], key=nx_var_key, reverse=bool(drev))
+            return {k: d[k] for k in first + rest}
+        return reorder(ro, outcomes), reorder(rc, conditions)
+    idc.get_new_outcomes_and_conditions = patched
+    try:
+        with fixed_orders(strategy):
+            yield
+    finally:
+        idc.get_new_outcomes_and_conditions = orig
+
+
+def rand_event_pair(rng: random.Random, g, max_worlds=2):
+    """(outcomes, conditions): both non-empty, disjoint keys, drawn from one pool of worlds"""
+    for _ in range(20):
+        ev = rand_event(rng, g, max_worlds=max_worlds, max_items=rng.choice([2, 2, 3, 3, 4]))
+        if len(ev) >= 2:
+            break
+    else:
+        return None
+    idx = list(range(len(ev)))
+    rng.shuffle(idx)
+    k = rng.randint(1, len(ev) - 1)
+    outs = [ev[i] for i in sorted(idx[:k])]
+    conds = [ev[i] for i in sorted(idx[k:])]
+    rng.shuffle(outs)
+    rng.shuffle(conds)
+    return outs, conds
+
+
+# ------------------------------------------------------------------------------------------ shrinking to finding keys
+
+
+class Shrinker:
+    """Greedy, failure-kind preserving shrinking of a failing case and the finding key of the result.
+
+    evaluate(case, n_models, with_unpatched) -> {"fail": str | None, "kind": str | None, ...}
+    The key of a shrunk case is (kind, graph + events up to renaming of the variables)."""
+
+    def __init__(self, prop, keys, evaluate, fields):
+        self.prop, self.keys, self.evaluate, self.fields = prop, tuple(keys), evaluate, tuple(fields)
+        self._known = None
+
+    def key_of(self, case, kind):
+        import json
+
+        return json.dumps([kind, relabel_canonical(case, keys=self.keys)], sort_keys=True)
+
+    def still_fails(self, cand, kind):
+        """same failure kind on the candidate: tried with two different model samples before giving up (a wrong
+        estimand can coincide with the right value on degenerate models)"""
+        for ds in (0, 7919):
+            c = dict(cand, seed=cand.get("seed", 0) + ds)
+            r = self.evaluate(c, n_models=8, with_unpatched=False)
+            if r["fail"] and r["kind"] == kind:
+                return True
+        return False
+
+    def shrink_fully(self, case, kind, budget=400, order_seed=None):
+        cur = {k: case[k] for k in self.fields if k in case}
+        cur["g"] = {"nodes": G.all_nodes(cur["g"]), "di": cur["g"]["di"], "bi": cur["g"]["bi"]}
+        rng = random.Random(order_seed) if order_seed is not None else None
+        improved = True
+        while improved and budget > 0:
+            improved = False
+            cands = list(shrink_event_case(cur, keys=self.keys))
+            if rng is not None:
+                rng.shuffle(cands)
+            for cand in cands:
+                budget -= 1
+                if budget <= 0:
+                    break
+                try:
+                    ok = self.still_fails(cand, kind)
+                except Exception:
+                    continue
+                if ok:
+                    cur = cand
+                    improved = True
+                    break
+        return cur
+
+    def known_keys(self):
+        if self._known is None:
+            self._known = {f["key"] for f in C.load_known(self.prop)}
+        return self._known
+
+    greedy_only = False
+
+    def shrink_to_key(self, case, kind):
+        """(shrunk case, key).  The greedy local minimum first; if its key is not a listed finding, a few other shrink
+        orders are tried and a listed key is preferred (one defect has several local minima)."""
+        small = self.shrink_fully(case, kind)
+        key = self.key_of(small, kind)
+        if key not in self.known_keys() and not self.greedy_only:
+            for t in range(6):
+                alt = self.shrink_fully(case, kind, order_seed=case.get("seed", 0) * 31 + t)
+                k2 = self.key_of(alt, kind)
+                if k2 in self.known_keys():
+                    return alt, k2
+        return small, key
